@@ -282,6 +282,36 @@ def run(ctx):
         swe = [a for a in fx.find(domain="comb", target="slave.we") if a.state == (info.id, st)]
         ok = len(swe) == 1 and swe[0].v == ("1" if st == "EVICT" else "0")
         ctx.ob("A3", WB, "Cache", f"slave.we = {'1' if st == 'EVICT' else '0'} in {st}", ok, "" if ok else f"{[a.v for a in swe]}")
+    # the line ends with the LAST value the word counter can take: `word == E` on the steps EVICT -> REFILL and REFILL -> TEST_HIT,
+    # E evaluated by the checker for wordbits = 1..5 against the declared width of `word` (a shorter count leaves the upper slave
+    # words of every line neither written back nor refilled; a longer one never ends)
+    from .. import pyconst
+    wdecl = None
+    for st_ in ast.walk(ctx.mod(WB).cls("Cache")):
+        if isinstance(st_, ast.Assign) and any(norm(t_) == "word" for t_ in st_.targets):
+            for c_ in ast.walk(st_.value):
+                if isinstance(c_, ast.Call) and norm(c_.func) == "Signal":
+                    wdecl = c_
+    for t in [t for t in fx.trans if (t.src, t.dst) in (("EVICT", "REFILL"), ("REFILL", "TEST_HIT"))]:
+        cmp_ = [n_ for g_, pol_ in t.guards if pol_ for n_ in ast.walk(g_)
+                if isinstance(n_, ast.Compare) and len(n_.ops) == 1 and isinstance(n_.ops[0], ast.Eq) and norm(n_.left) == "word"]
+        bad = None
+        if len(cmp_) != 1 or wdecl is None:
+            bad = f"end-of-line test not recognised in {t.gtext()}"
+        else:
+            for wb in range(1, 6):
+                try:
+                    got = pyconst.Interp({"wordbits": wb}).ev(cmp_[0].comparators[0])
+                except Exception as e:          # noqa
+                    got = f"? ({type(e).__name__})"
+                n_vals = q.signal_values(wdecl, {"wordbits": wb})
+                if n_vals is None or got != n_vals - 1:
+                    bad = (f"wordbits={wb}: the line is taken as complete at word == {got}, the counter `{norm(wdecl)}` runs to "
+                           f"{(n_vals or 0) - 1}: slave words {got + 1 if isinstance(got, int) else '?'}..{(n_vals or 0) - 1} of every line are "
+                           f"never transferred")
+                    break
+        ctx.ob("A3", WB, "Cache", f"{t.src} -> {t.dst}: line complete at the last value of the word counter (wordbits 1..5)", bad is None,
+               bad or "", t.line)
     wd = fx.find(domain="sync", target="word")
     ok = len(wd) == 2 and all(B.entails(q.gformula(fx, a, inline=False), B.from_expr("word_clr | word_inc")) for a in wd)
     ctx.ob("A3", WB, "Cache", "word register moves only via word_clr/word_inc", ok, "" if ok else f"{[(a.v, a.gtext()) for a in wd]}")
